@@ -289,6 +289,11 @@ def symbol_needs_import(fullname, namespaces):
             # runs a ``__class__`` property or a custom ``__getattribute__``).
             if issubclass(type(var), _UseChecker):
                 var.used = True
+            elif issubclass(type(var), _PrefixUse):
+                # The package name bound by ``import pkg.sub``: reading it
+                # uses the import statement(s) that bound it.
+                for checker in var.checkers:
+                    checker.used = True
             # Suppose the user accessed fullname="foo.bar.baz.quux" and
             # suppose we see "foo.bar" was imported (or otherwise assigned) in
             # the scope vars (most commonly this means it was imported
@@ -369,6 +374,22 @@ class _UseChecker:
 
     def __repr__(self):
         return f"<{type(self).__name__}: name:{self.name!r} source:{self.source!r} lineno:{self.lineno} used:{self.used}>"
+
+
+class _PrefixUse:
+    """
+    The binding of a package name created by ``import pkg.sub``.  Reading it
+    uses the import statement(s) that created it.
+    """
+
+    # Never itself reported as an unused import.
+    used = True
+
+    def __init__(self, checkers):
+        self.checkers = tuple(checkers)
+
+    def __repr__(self):
+        return f"<{type(self).__name__}: {self.checkers!r}>"
 
 
 class _MissingImportFinder:
@@ -1000,10 +1021,6 @@ class _MissingImportFinder:
         if is_star:
             logger.debug("Got star import: line %s: 'from %s import *'",
                          self._lineno, modulename)
-        if not node.asname and not is_star:
-            # Handle leading prefixes so we don't think they're unused
-            for prefix in DottedIdentifier(node.name).prefixes[:-1]:
-                self._visit_Store(str(prefix), None)
         if self.unused_imports is None or is_star or modulename == "__future__":
             value = None
         else:
@@ -1011,14 +1028,29 @@ class _MissingImportFinder:
             logger.debug("_visit_StoreImport(): imp = %r", imp)
             # Keep track of whether we've used this import.
             value = _UseChecker(name, imp, self._lineno)
+        scope = self.scopestack[-1]
+        prefixes = []
+        if not node.asname and not is_star:
+            # Handle leading prefixes so we don't think they're unused
+            prefixes = [str(p) for p in DottedIdentifier(node.name).prefixes[:-1]]
+        old_prefix_values = [scope.get(p) for p in prefixes]
+        for prefix in prefixes:
+            self._visit_Store(prefix, None)
         self._visit_Store(name, value)
+        if value is not None:
+            # ``import a.b`` binds ``a``: a later read of ``a`` uses this
+            # import (and any earlier ``import a.c`` in this scope).
+            for prefix, old in zip(prefixes, old_prefix_values):
+                old_checkers = (old.checkers
+                                if isinstance(old, _PrefixUse) else ())
+                scope[prefix] = _PrefixUse(old_checkers + (value,))
 
     def _visit_Store(self, fullname: str, value: Optional[_UseChecker] = None):
         """
         Visit a Store action, check for unused import
         and add current value to the last scope.
         """
-        assert isinstance(value, (_UseChecker, type(None)))
+        assert isinstance(value, (_UseChecker, _PrefixUse, type(None)))
         logger.debug("_visit_Store(%r)", fullname)
         if fullname is None:
             return
